@@ -47,7 +47,8 @@ RULE = (
     "sequences <=2 x file level. N=3 quick / 4 thorough. Each log: written once by the real handler, read as "
     "{.zst as written, .gz, plain, stdin pipe, stdin file} x {with '<prio>' prefix, prefix stripped}; round trip, len, "
     "records(priority p, offset k, reverse) for all 9 p x k in -(n+1)..n+1 x both directions; hr {forward, reverse, "
-    "--head -n, --tail -n} x n in {0,1,len-1,len,len+1,100} x 9 thresholds. (bfs) for logs of n=0..N+1 records: "
+    "--head -n, --tail -n} x n in {0,1,len-1,len,len+1,100} x 9 thresholds + default (lvseq logs; fewer thresholds on the other "
+    "families / containers, see PROFILES). (bfs) for logs of n=0..N+1 records: "
     "breadth-first over ALL operation sequences of depth <= 3 quick / 4 thorough of the public reader API, each history "
     "re-executed on a fresh reader, deduplicated by (complete reader attribute state, model state). "
     "evaluations = oracle comparisons (one reader call, hr run or op application each); a case is non-trivial unless it "
@@ -625,8 +626,10 @@ def apply_op(lc: LogCase, variant: str, reader: Any, cur: M.Cursor, op: tuple[An
         if not check:
             return
         if "built-from-cursor" in (tbl_before, table_state(lc, variant, reader)):
+            # a wrong current_record is the wrong line read just before: one consequence, one signature
+            fam = "readline" if family == "current_record" else family
             lc.violate(
-                f"C17|opseq|offset-table-built-from-cursor-position|{family}",
+                f"C17|opseq|offset-table-built-from-cursor-position|{fam}",
                 msg + " [the record-offset table was built while the cursor was not at the file start and lacks the records before it]",
                 case,
             )
@@ -790,6 +793,12 @@ PROFILES: dict[str, dict[str, Any]] = {
         "hr": {"plain": (ALL_THRESHOLDS, "all"), "*": ([None], "short")},
         "two_files": True,
     },
+    # quick tier: as "full", but hr on the prefix-stripped plain file with 4 instead of 10 thresholds
+    "fullq": {
+        "sweep": {"*": M.ALL_PRIOS},
+        "hr": {"plain": (ALL_THRESHOLDS, "all"), "noprefix/plain": ([8, None, 4, 0], "all"), "*": ([None], "short")},
+        "two_files": True,
+    },
     "text": {
         "sweep": {"plain": [8, 5], "*": [8]},
         "hr": {"plain": ([8], "all"), "*": ([8], "forward-only")},
@@ -803,7 +812,9 @@ PROFILES: dict[str, dict[str, Any]] = {
 }
 
 
-def _pick(d: dict[str, Any], cont: str) -> Any:
+def _pick(d: dict[str, Any], cont: str, variant: str = "") -> Any:
+    if f"{variant}/{cont}" in d:
+        return d[f"{variant}/{cont}"]
     return d.get(cont, d["*"])
 
 
@@ -845,7 +856,7 @@ def check_log(res: Result, item: Any, d: Path, specs: list[M.RecSpec], profile: 
             if baseline_ok or lc.n == 0:
                 if (variant, cont) == ("prefix", "plain") and baseline_ok:
                     check_render(lc)
-                check_hr(lc, variant, cont, *_pick(prof["hr"], cont))
+                check_hr(lc, variant, cont, *_pick(prof["hr"], cont, variant))
     if prof["two_files"] and (baseline_ok or lc.n == 0):
         check_hr_two_files(lc)
     if bfs_cfg is not None and baseline_ok:
@@ -882,7 +893,7 @@ def items(tier: str, seed: int) -> list[tuple[Any, ...]]:
     j = 0
     for n in range(0, N + 1):
         for lv in itertools.product(M.LEVEL_NAMES, repeat=n):
-            out.append(("lvseq", list(lv), j))
+            out.append(("lvseq", list(lv), j, "fullq" if tier == "quick" else "full"))
             j += 1
     for level in M.LEVEL_NAMES:
         for tags_i in range(len(M.TAGS)):
@@ -923,9 +934,9 @@ def run_item(item: tuple[Any, ...]) -> Result:
     try:
         fam = item[0]
         if fam == "lvseq":
-            _, levels, j = item
+            _, levels, j, profile = item
             specs = lv_specs(levels, j)
-            check_log(res, item, d, specs, "full")
+            check_log(res, item, d, specs, profile)
             if j in (40, 200):
                 res.sample({"family": fam, "records": [list(s[:2]) + [s[2], s[3]] for s in specs], "evaluations": res.counters.get("evaluations")})
         elif fam == "txseq":
